@@ -921,6 +921,9 @@ func (r rangeValue) Has(y Value) (bool, error) {
 	if err != nil {
 		return false, fmt.Errorf("'in <range>' requires integer as left operand, not %s", y.Type())
 	}
+	if f, ok := y.(Float); ok && float64(f) != math.Trunc(float64(f)) {
+		return false, nil // a non-integral float is not an element of any range
+	}
 	return r.contains(i), nil
 }
 
